@@ -224,10 +224,11 @@ func slotMustDepend(c *Ctx, s versionSlot, comp string) bool {
 }
 
 func checkC15(c *Ctx, r *Report) {
-	r.Rules = []string{"F14 file name and metadata state the same identity components", "F14 architecture after the same translation, stated plainly", "file name ends in the conventional extension", "W3 file-name side effects are idempotent", "CLI target resolution", "CLI packager inference", "F14-same-expr the same expression on both sides (rpm, apk, archlinux release)", "CLI working directory unchanged while the target is resolved", "same-F13-plain the control template's Version line applies no helper the file name does not (imported from C14)"}
+	r.Rules = []string{"F14 file name and metadata state the same identity components", "F14 architecture after the same translation, stated plainly", "file name ends in the conventional extension", "W3 file-name side effects are idempotent", "CLI target resolution", "CLI packager inference", "F14-same-expr the same expression on both sides (rpm, apk, archlinux release)", "CLI working directory unchanged while the target is resolved", "same-F13-plain the control template's Version line applies no helper the file name does not (imported from C14)", "F14-name-fixpoint a sanitiser applied to the name in the file name is what Package validates the name with", "same-D8-packager-store (imported from C14)"}
 	r.Explanation = "Agreement and structure rules over go/ssa and the parsed templates. (F14) per packager and per identity component (name, version, prerelease, version metadata, release, architecture) the conventional file name depends on the component on every live path (abstract evaluation with the component fixed non-empty, intersection of provenance at joins) exactly when the inner metadata states it (control template rows / rpm metadata fields / .PKGINFO keys, the same way); both ConventionalFileName and Package apply the same architecture translation before anything reads the architecture, and the metadata's architecture derives from the translated architecture alone; the file name's format ends in the packager's ConventionalExtension constant; the writes ConventionalFileName performs on the Info are idempotent (C11-W3). (CLI) in doPackage the path handed to os.Create is the phi of the given target, the conventional name (on the target-empty edge) and path.Join(target, conventional name) (on the is-a-directory edge); Info.Target receives the same value; the packager is taken from the target's extension only on the packager-empty edge."
 	r.Explanation += " (F14-same-expr) rpm: name, version, release and architecture in the file name are the expressions written to the metadata; apk: the template's pkgver function; archlinux: the release expression. The command changes the working directory nowhere on its packaging path."
 	r.Explanation += " (same-F13-plain) imported from C14: a helper applied to a version component on the template's Version line only makes file name and metadata disagree."
+	r.Explanation += " (F14-name-fixpoint) for every string function of the packager that the file name applies to the configured name, Package's call graph compares that function's result with its argument (so names it would change are rejected)."
 	r.Assumptions = []string{"concrete strings are not computed; 'depends on' is provenance, not equality of rendered text"}
 	for _, pk := range c.Packagers {
 		if pk.Format == "" {
@@ -303,10 +304,11 @@ func checkC15(c *Ctx, r *Report) {
 	}
 	// same expression on both sides where the code composes both (rpm, apk)
 	checkSameVersionExpr(c, r)
+	checkSanitisedNameAgrees(c, r)
 	// the file name takes the version components as configured; so must the
 	// control template (a helper applied on the Version line only - a
 	// sanitiser, say - makes the two disagree; shared with C14)
-	r.Floor("same-F13-plain", importRules(c, r, checkC14, "same-", []string{"F13-plain"}, nil), 2)
+	r.Floor("same-F13-plain", importRules(c, r, checkC14, "same-", []string{"F13-plain", "D8-packager-store"}, nil), 7)
 	// W3 (shared with C11)
 	tmp := newReport("tmp")
 	checkPackagerStores(c, tmp)
@@ -690,7 +692,37 @@ func checkSameVersionExpr(c *Ctx, r *Report) {
 					}
 					for _, a := range variadicOrdered(call.Call.Args[1]) {
 						if pa.Of(a).has("Info.Release") {
-							out[valueExpr(c, a, 0)] = true
+							// a helper's parameter stands for what its callers pass
+							var up func(v ssa.Value, in *ssa.Function, d int)
+							up = func(v ssa.Value, in *ssa.Function, d int) {
+								w := v
+								if mi, isMI := w.(*ssa.MakeInterface); isMI {
+									w = mi.X
+								}
+								w = stripConv(w)
+								prm, isPrm := w.(*ssa.Parameter)
+								if !isPrm || d > 2 {
+									out[valueExpr(c, v, 0)] = true
+									return
+								}
+								idx := -1
+								for i, q := range in.Params {
+									if q == prm {
+										idx = i
+									}
+								}
+								sites := pa.callSites(in)
+								if idx < 0 || len(sites) == 0 {
+									out[valueExpr(c, v, 0)] = true
+									return
+								}
+								for _, cs := range sites {
+									if idx < len(cs.Common().Args) {
+										up(cs.Common().Args[idx], cs.Parent(), d+1)
+									}
+								}
+							}
+							up(a, fn, 0)
 						}
 					}
 				})
@@ -729,4 +761,76 @@ func checkSameVersionExpr(c *Ctx, r *Report) {
 		})
 		r.Check(same, "F14-same-expr", "apk: version in the file name is the template's pkgver function", c.pos(pk.FileName.Pos()), "the file name must use the unmodified result of the function that renders pkgver in .PKGINFO")
 	}
+}
+
+// checkSanitisedNameAgrees (F14-name-fixpoint): where the file name is passed
+// through a sanitiser (archlinux strips the characters pacman does not accept)
+// while the metadata states the configured name as it stands, the two agree
+// only for names the sanitiser leaves unchanged. Package must therefore reject
+// every other name with that very function: somewhere on its call graph the
+// sanitiser's result is compared with its own argument.
+func checkSanitisedNameAgrees(c *Ctx, r *Report) {
+	pa := newProv(c)
+	n := 0
+	for _, pk := range c.Packagers {
+		if pk.Format == "" || pk.FileName == nil {
+			continue
+		}
+		sanitisers := map[*ssa.Function]ssa.Instruction{}
+		for _, fn := range sortedFuncs(c, c.Reach(pk.FileName)) {
+			if c.funcPkgPath(fn) != pk.PkgPath {
+				continue
+			}
+			forEachInstr(fn, func(in ssa.Instruction) {
+				call, ok := in.(*ssa.Call)
+				if !ok {
+					return
+				}
+				sc := call.Call.StaticCallee()
+				if sc == nil || !c.isModuleFunc(sc) || len(sc.Blocks) == 0 || len(call.Call.Args) != 1 || sc.Signature.Results().Len() != 1 {
+					return
+				}
+				if call.Call.Args[0].Type().String() != "string" || sc.Signature.Results().At(0).Type().String() != "string" {
+					return
+				}
+				if pa.Of(call.Call.Args[0]).has("Info.Name") && !pa.Of(call.Call.Args[0]).has("Info.Arch") || pa.Of(call.Call.Args[0]).has("Info.Name") && c.funcPkgPath(sc) == pk.PkgPath {
+					// a pure string function of the package applied to (a string containing) the name
+					if _, isTable := sanitisers[sc]; !isTable {
+						sanitisers[sc] = in
+					}
+				}
+			})
+		}
+		var fns []*ssa.Function
+		for f := range sanitisers {
+			fns = append(fns, f)
+		}
+		sort.Slice(fns, func(i, j int) bool { return fns[i].Pos() < fns[j].Pos() })
+		for _, san := range fns {
+			n++
+			fix := false
+			for _, g := range sortedFuncs(c, c.Reach(pk.Package)) {
+				forEachInstr(g, func(in ssa.Instruction) {
+					call, ok := in.(*ssa.Call)
+					if !ok || call.Call.StaticCallee() != san || call.Referrers() == nil {
+						return
+					}
+					for _, ref := range *call.Referrers() {
+						if bo, isBO := ref.(*ssa.BinOp); isBO && (bo.Op == token.EQL || bo.Op == token.NEQ) {
+							other := bo.X
+							if bo.X == ssa.Value(call) {
+								other = bo.Y
+							}
+							if other == call.Call.Args[0] || sameValue(other, call.Call.Args[0]) {
+								fix = true
+							}
+						}
+					}
+				})
+			}
+			r.Check(fix, "F14-name-fixpoint", fmt.Sprintf("%s: the file name's sanitiser %s is what Package validates the name with", pk.Format, c.funcKey(san)), c.instrPos(sanitisers[san]),
+				"the file name passes the name through "+c.funcKey(san)+", the metadata states it as configured; nothing on Package's call graph rejects a name that function changes (no comparison of its result with its argument): for such a name file name and metadata disagree")
+		}
+	}
+	r.Count("file_name_sanitisers", n)
 }
